@@ -90,7 +90,7 @@ PROPS["C04"] = {
 PROPS["C07"] = {
     "level": "model_checking", "rule": DEC_RULE, "bounds": DEC_BOUNDS,
     "assumptions": DEC_ASSUME + ["AddressSanitizer build (-O1) of library and harness; symbol buffers are exact-size heap blocks ending at the end of their malloc block, pointer tables have exactly n resp. k entries", "blind spot: reads before a buffer start that stay inside the alignment padding (offsets 1..7)"],
-    "claim": "the decoder explorations re-run under AddressSanitizer with exact-size application buffers and pristine-copy comparison after every call, plus symbol lengths 1..40,63,64,65 x alignments 0..7 and the parameter limits: no ASan report, no signal, no application buffer or table modified, in any explored state including release at every state",
+    "claim": "(the n-k sweep 131..2100 of the large mode is run on every third value under AddressSanitizer in the quick tier) the decoder explorations re-run under AddressSanitizer with exact-size application buffers and pristine-copy comparison after every call, plus symbol lengths 1..40,63,64,65 x alignments 0..7 and the parameter limits: no ASan report, no signal, no application buffer or table modified, in any explored state including release at every state",
     "runs": dec_runs("asan", "nbNz", "rs,ldpc", ["bfs", "lens", "large", "rows"]) + dec_runs("trk", "nb", "rs,ldpc", ["lens"]) + [lowrate_run("asan", "nb", 5, 6, False)],
     "budget": {"quick": 900, "thorough": 5400},
 }
